@@ -194,9 +194,18 @@ func (r *rearmRun) caller(g int, sp RearmSpec, wg *sync.WaitGroup, start chan st
 		}
 		if sp.ExitRaceUs > 0 {
 			// 1.5 .. 3.5 idle timeouts after the start of the callback
-			jit := (uint64(i)*2654435761 + uint64(g)*40503) % 2000
-			until := s + sp.ExitRaceUs*(1500+int64(jit))
-			for r.now() < until {
+			// (mostly 1.95 .. 2.75: with a running scheduler the second idle round ends 2.0 .. 2.5 idle
+			// timeouts after the callback)
+			h := uint64(i)*2654435761 + uint64(g)*40503
+			jit := 1950 + int64(h%800)
+			if h%4 == 3 {
+				jit = 1500 + int64((h/4)%2000)
+			}
+			until := s + sp.ExitRaceUs*jit
+			for n := 0; r.now() < until; n++ {
+				if n&7 == 7 {
+					runtime.Gosched() // keeps the timers of the idle Ps served without the netpoller's 1 ms granularity
+				}
 			}
 		}
 		// vary the gap between the start of the callback and the next Call
